@@ -612,6 +612,66 @@ def sqlite_arithmetic_tables(program, res, rule="C05-S2"):
     res.expect_count(rule, "SQLite arithmetic templates evaluated", n, 3)
 
 
+def sql_modulo_tables(program, res, rule="C05-S2", dialects=None):
+    """The same value tables for the dialects that share the generic formatters: `%` / mod / remainder of PostgreSQL, MySQL, BigQuery, Spark and
+    Polars-SQL.  MOD(a, b) there is the truncating remainder (sign of the dividend, each dialect's documentation; Spark was run: MOD(-7, 2) = -1),
+    numpy.mod / Python's % — the catalogued meaning — takes the sign of the divisor."""
+    n = 0
+    seen = set()
+    for mod_, cls_ in sqlexpr.DIALECTS:
+        if cls_ == "SQLiteModel" or (dialects is not None and cls_ not in dialects):
+            continue
+        d_ = sqlexpr.Dialect(program, mod_, cls_)
+        for op in ("%", "mod", "remainder"):
+            kind, info = d_.resolve(op)
+            if kind != "formatter":
+                res.abstain(rule, f"{cls_} `{op}`", "no formatter (emitted natively)")
+                continue
+            fn = d_.formatter_func(info)
+            for t in sqlexpr.fold_function(fn):
+                text = sqlexpr.render(t)
+                key = (getattr(fn, "name", op), op, text)
+                n += 1
+                try:
+                    tree = sql3vl.parse(text)
+                except sql3vl.Opaque as e:
+                    res.abstain(rule, f"{cls_} `{op}` template `{text[:50]}`", f"not interpretable: {e}")
+                    continue
+                bad = None
+                for (a, b) in ARITHMETIC_WITNESSES:
+                    try:
+                        got = sql3vl.ev(tree, {"X": a, "Y": b})
+                    except sql3vl.Opaque as e:
+                        bad = ("opaque", str(e))
+                        break
+                    want = a % b
+                    if got is None or abs(float(got) - float(want)) > 1e-9:
+                        bad = (a, b, got, want)
+                        break
+                if bad is None:
+                    res.ok(rule, f"{cls_} `{op}`: `{text[:40]}` gives the floored modulo on all {len(ARITHMETIC_WITNESSES)} witnesses")
+                elif bad[0] == "opaque":
+                    res.abstain(rule, f"{cls_} `{op}` template", bad[1])
+                elif key in seen:
+                    continue  # the shared formatter is reported once
+                else:
+                    seen.add(key)
+                    a, b, got, want = bad
+                    owner = fn._sa_module if hasattr(fn, "_sa_module") else None
+                    res.fail(rule, f"{_formatter_owner(program, fn)}:{getattr(fn, 'name', op)}", f"value-table:{op}",
+                             f"`{op}` is emitted as `{text[:60]}` ({cls_} and every dialect sharing the formatter); at x = {a}, y = {b} that is {got}, the documented "
+                             f"(numpy) value is {want}: MOD takes the sign of the dividend", f"data_algebra/{_formatter_owner(program, fn)}.py", getattr(fn, "lineno", 0))
+    res.expect_count(rule, "generic modulo templates evaluated", n, 10 if dialects is None else 3 * len(dialects))
+
+
+def _formatter_owner(program, fn) -> str:
+    for m in program.modules.values():
+        for f in m.functions.values():
+            if f.node is fn:
+                return m.name.split(".")[-1]
+    return "sql_model"
+
+
 def sql_division_rule(program, res, dialect, rule):
     """`/` is true division in Python, Pandas and Polars; SQL's `/` between two integer operands is integer division.  A dialect agrees with
     the data-frame executors only if `/` goes through a formatter that makes an operand floating (as the library's `%/%` does)."""
@@ -1042,6 +1102,7 @@ def run(program, res, tier):
     _s9_total_user_functions(program, res)
     sql_floor_division_rule(program, res)
     sqlite_arithmetic_tables(program, res)
+    sql_modulo_tables(program, res)
     res.rule("C05-S8", "Pandas: helpers that tell columns from scalars know every column type the implementations return")
     _s8_column_operand_kinds(program, res)
     masked_condition_rule(program, res)
